@@ -23,7 +23,7 @@ CASE_TIMEOUT = {"quick": 60, "thorough": 180}
 
 
 def budget(tier):
-    return 600 if tier == "quick" else 6000
+    return 1500 if tier == "quick" else 15000
 
 
 def gen_case(rng, tier, k):
@@ -46,9 +46,12 @@ def run_case(case):
     if not target:
         return {"fails": [], "diffs": [], "nontrivial": False}
     forb = sorted({ni.names[i % ni.n] for i in case["forbidden"]})
-    ivs = succession_control(sd, target, strategy=case["strategy"], max_drivers_per_succession_node=case["bound"],
-                             forbidden_drivers=set(forb), successful_only=True,
-                             skip_feedforward_successions=case["skip_ff"])
+    try:
+        ivs = succession_control(sd, target, strategy=case["strategy"], max_drivers_per_succession_node=case["bound"],
+                                 forbidden_drivers=set(forb), successful_only=True,
+                                 skip_feedforward_successions=case["skip_ff"])
+    except RuntimeError:
+        return {"fails": [], "diffs": [], "tags": ["motif-limit-error"], "nontrivial": False}
     tsp = ni.sp(target)
     fails = []
     judged = 0
